@@ -496,14 +496,14 @@ class CooperativeAwarenessMessage:
             Position confidence ellipse value.
         """
         position_confidence_ellipse = {
-            "semiMajorAxisLength": int(epx * 100),
-            "semiMinorAxisLength": int(epy * 100),
+            "semiMajorAxisLength": min(int(epx * 100), 4094),
+            "semiMinorAxisLength": min(int(epy * 100), 4094),
             "semiMajorAxisOrientation": 0,
         }
         if epy >= epx:
             position_confidence_ellipse = {
-                "semiMajorAxisLength": int(epy * 100),
-                "semiMinorAxisLength": int(epx * 100),
+                "semiMajorAxisLength": min(int(epy * 100), 4094),
+                "semiMinorAxisLength": min(int(epx * 100), 4094),
                 "semiMajorAxisOrientation": 0,
             }
         return position_confidence_ellipse
